@@ -34,7 +34,7 @@ CHECKS = {
    note="as C01",
    tech="explicit-state BFS on the implementation, per-state rebuild matrix (paths x tie permutations x foreign aggregates)"),
  "C11": dict(engine="seqmc", cat="model_checking", ref="5 (C11)",
-   text="In every state reachable in SC-order (ties, non-monotone timestamps, re-queued / replenished / amended orders) the level is restored through each of the four snapshot paths for every permutation of tied listing entries, and the original (replayed), the restored level and a fresh level re-adding the listed orders in listed order are driven through every continuation of length <= 2 over {match 1,2,4,1000; cancel #1..#3} plus a draining match. restored == re-added always; original == restored unless the original's queue order is not the strict timestamp order (KF3) or holds stale tickets (KF2). One alphabet is also explored with the taker carrying the id of resting order #1 (the taker id is only a label). Long and churn sweeps (single calls visiting 7*10^4 .. 1.2*10^6 makers; a level amended 70 000 times in front of live orders) are executed directly and checked with this property's predicates. Further alphabets: SC-bulk, SC-realts (timestamps in seconds, milli-, micro- and nanoseconds), SC-reuse to depth 8 (thorough 12).",
+   text="In every state reachable in SC-order (ties, non-monotone timestamps, re-queued / replenished / amended orders) and in SC-zero (zero-display orders, reserves with replenish amount Some(0) / absent, fully hidden reserves; depth 3 / 4) the level is restored through each of the four snapshot paths for every permutation of tied listing entries, and the original (replayed), the restored level and a fresh level re-adding the listed orders in listed order are driven through every continuation of length <= 2 over {match 1,2,4,1000; cancel #1..#3} plus a draining match. restored == re-added always; original == restored unless the original's queue order is not the strict timestamp order (KF3) or holds stale tickets (KF2). One alphabet is also explored with the taker carrying the id of resting order #1 (the taker id is only a label). Long and churn sweeps (single calls visiting 7*10^4 .. 1.2*10^6 makers; a level amended 70 000 times in front of live orders) are executed directly and checked with this property's predicates. Further alphabets: SC-bulk, SC-realts (timestamps in seconds, milli-, micro- and nanoseconds), SC-reuse to depth 8 (thorough 12).",
    note="differential on the real code only; classification uses the hook's ticket mirror; known findings listed in KNOWN_FINDINGS.txt",
    tech="explicit-state BFS on the implementation, three-way differential (original / restored / re-added) over all continuations"),
  "C19": dict(engine="seqmc", cat="model_checking", ref="5 (C19)",
